@@ -1,5 +1,5 @@
 """Property id -> check function(prop, tier, replay) -> exit code."""
-from .checks import roundtrip, perturbed, expr, lifecycle, scopes, sourceform
+from .checks import roundtrip, perturbed, expr, lifecycle, scopes, sourceform, anyinput, legacy, effort
 
 CHECKS = {}
 for _p in ("C01", "C02", "C10", "C17", "C18"):
@@ -11,3 +11,7 @@ CHECKS["C09"] = lifecycle.run
 CHECKS["C16"] = scopes.run
 CHECKS["C04"] = sourceform.run
 CHECKS["C12"] = sourceform.run
+CHECKS["C06"] = anyinput.run
+CHECKS["C05"] = sourceform.run
+CHECKS["C19"] = legacy.run
+CHECKS["C20"] = effort.run
